@@ -2,7 +2,7 @@
    A run is a label list accepted by the machine of C20/Model.v: every interleaving of metric updates (any
    number of threads) with the per-key steps of any number of readouts is such a list. *)
 From Coq Require Import List NArith ZArith.
-From MV Require Import C11.Model C11.Float C20.Model C20.Proofs C20.EntryProofs.
+From MV Require Import C11.Model C11.Float C20.Model C20.Proofs C20.EntryProofs C20.RepeatProofs C20.PromptProofs.
 Import ListNotations.
 Local Open Scope N_scope.
 
@@ -20,6 +20,17 @@ Theorem c20_counter_once_from : forall k ls s s' total, run s ls = Some s' -> id
   accounted k s = total -> total + incs k ls < 2 ^ 64 -> accounted k s' = total + incs k ls.
 Proof. exact counter_accounted. Qed.
 Print Assumptions c20_counter_once_from.
+
+(* Promptness: whatever was incremented on a registered counter before a readout begins has been reported once
+   that readout finishes (possibly by an earlier one), and nothing is reported before it was incremented. With
+   c20_counter_once: every increment is reported in exactly one readout, the first one that swaps the counter
+   after it. *)
+Theorem c20_counter_prompt : forall ez k pre mid ts s,
+  run (init ez) (pre ++ RBegin :: mid ++ [RFinish ts]) = Some s -> ~ In RBegin mid ->
+  In (LRegister KCounter k) pre -> incs k (pre ++ RBegin :: mid ++ [RFinish ts]) < 2 ^ 64 ->
+  incs k pre <= out_csum k (out s) /\ out_csum k (out s) <= incs k (pre ++ RBegin :: mid).
+Proof. exact counter_prompt. Qed.
+Print Assumptions c20_counter_prompt.
 
 (* ---- histograms ---- *)
 
@@ -42,6 +53,13 @@ Theorem c20_histogram_written_small : forall i c, i < 464 -> 0 < c <= u32_max ->
   bucket_of (i, c) = [(bucket_mid 32 i, c)].
 Proof. exact bucket_written_small. Qed.
 Print Assumptions c20_histogram_written_small.
+
+(* `times` consecutive records of one thread are one label: c records followed by t single records leave the
+   state that one label with c + t records leaves. *)
+Theorem c20_hrec_repeat : forall k b t s c s1, step s (LHRec k b c) = Some s1 ->
+  run s1 (repeat (LHRec k b 1) t) = step s (LHRec k b (c + N.of_nat t)).
+Proof. exact hrec_repeat. Qed.
+Print Assumptions c20_hrec_repeat.
 
 (* The value an observation is reported at: the midpoint m of the slot of its u32 value v, |m - v| <= v/32 + 1. *)
 Theorem c20_histogram_value_error : forall b i, value_to_index 32 (hist_value b) = Some i ->
